@@ -176,10 +176,15 @@ class Ctx:
         self._obs = []
         if not self._scratch:
             self.sample(case)
+        import time as _t
+
+        t0 = _t.time()
         self._guarded(fn, case)
+        elapsed = _t.time() - t0
         obs = self._obs
         if (
-            not self._scratch
+            elapsed < 0.25
+            and not self._scratch
             and not self.replay
             and self.counters["selfcheck_cases"] < self.SELFCHECK_CASES
             and getattr(mod, "DETERMINISTIC", True)
